@@ -285,8 +285,8 @@ func identityEvents(w *world.World, run string, origins []string) ([]any, error)
 	if err != nil {
 		return nil, err
 	}
-	adapter := omniwitness.VerifWitnessAdapter(wit)
-	h := bastion.VerifNewHandler(bastion.Config{Logs: logs, WitnessVerifier: witV, Limits: bastion.RequestLimits{TotalPerSecond: rate.Limit(10000)}}, adapter)
+	adapter := witnessAdapterOf(wit)
+	h := shimNewHandler(bastion.Config{Logs: logs, WitnessVerifier: witV, Limits: bastion.RequestLimits{TotalPerSecond: rate.Limit(10000)}}, adapter)
 	for _, o := range origins {
 		root := ref.EmptyRoot()
 		text := ref.CheckpointText(o, 0, root[:], "")
